@@ -61,14 +61,21 @@ def observable(d, fields=ALL_FIELDS):
 SPEC_MISMATCHES = []
 
 
+REFINE_MISMATCHES = []
+
+
 def compare(lines, impl, fields):
-    mout = common.run_model(lines)
+    # the rbql-js leg is answered by the model of the rbql.js engine (Model/EngineJs.lean: JSON-keyed Set/Map, sort with NR, …),
+    # which the refinement theorem relates to the reference model
+    mout = common.run_model(['queryjs ' + l[6:] if impl == 'js' and l.startswith('query ') else l for l in lines])
     iout = common.run_impl_py(lines) if impl == 'py' else common.run_impl_js(lines)
     res = []
     for l, m, o in zip(lines, mout, iout):
         pmraw = parse_out(m)
         if isinstance(pmraw, dict) and pmraw.get('specOk') is False:
             SPEC_MISMATCHES.append(l)
+        if isinstance(pmraw, dict) and pmraw.get('refinesOk') is False:
+            REFINE_MISMATCHES.append(l)
         pm = observable(pmraw, fields)
         po = observable(parse_out(o), fields)
         res.append((pm == po, pm, po))
@@ -180,6 +187,10 @@ def run_cases(res, prop, cases, impl='py', rnd=None, fields=ALL_FIELDS, max_repo
                                    'case_key': '%s|%s|%s|%s|%s' % (prop, impl, json.loads(sl[6:])['py'], json.dumps(small['A']), json.dumps(small.get('B'))),
                                    'replay_cmd': './check %s --replay <this file>' % prop})
     res.count('disagreements_' + impl, nbad)
+    if REFINE_MISMATCHES:
+        # the model of the rbql.js engine and the reference model differ where the refinement theorem says they agree
+        print('INFRA: rbql.js engine model and reference model differ on %d case(s), e.g. %s' % (len(REFINE_MISMATCHES), REFINE_MISMATCHES[0][:600]))
+        raise SystemExit(2)
     if SPEC_MISMATCHES:
         # the executable specification layer disagrees with the operational model: a defect of the machinery, not of the repository
         print('INFRA: specification layer and operational model differ on %d case(s), e.g. %s' % (len(SPEC_MISMATCHES), SPEC_MISMATCHES[0][:600]))
